@@ -939,8 +939,8 @@ OLC_RULES = {
            "are unique per insert), including a final single-threaded read of every key; non-trivial = >= 1 "
            "preemption and a successful writer overlapping another operation; distinct by hash(program, schedule)",
     "C04": OLC_GEN + "oracle: ASan on every access, value views from get and scan re-read before the holder's next "
-           "quiescent state, allocation/free notifications (exactly-once, nothing lost: after the drain the bytes "
-           "held equal the reported memory use, destruction empties the live set), post-run single-threaded sweep "
+           "quiescent state, allocation/free notifications (exactly-once: ASan traps a second free; nothing lost: "
+           "destroying the index after the drain must empty the set of live tree blocks), post-run single-threaded sweep "
            "touching every node; non-trivial = a node or leaf was freed during the concurrent phase, or retired by "
            "a structural change overlapping another operation; distinct by hash(program, schedule)",
     "C09": OLC_GEN + "one or two scanning threads (scan / scan_from / scan_range, both directions, optional halt; "
